@@ -356,6 +356,61 @@ def _stmts_in_order(body):
                     yield x
 
 
+def rule_p3b(ctx):
+    r = RuleResult('C11.P3b', 'inside a loop over directions no name is read before it is (re)assigned in the same iteration if the loop body '
+                              'assigns it at all: a value carried from the previous direction would make direction p depend on direction p-1')
+    from .defassign import DefAssign, local_names
+    m = ctx.model
+    for fi in _funcs(ctx):
+        if fi.name in NO_P_AXIS or fi.generated:
+            continue
+        psyms = _psyms(fi)
+        loops = [lp for lp, var, full in _p_loops(fi, psyms)]
+        outer = [lp for lp in loops if not any(lp is not o and any(x is lp for x in ast.walk(o)) for o in loops)]
+        for lp in outer:
+            stored = set()
+            aug = set()
+            for n in ast.walk(lp):
+                if isinstance(n, ast.AugAssign) and isinstance(n.target, ast.Name):
+                    aug.add(id(n.target))
+            for n in ast.walk(lp):
+                if isinstance(n, ast.Name) and isinstance(n.ctx, ast.Store) and id(n) not in aug:
+                    stored.add(n.id)
+            stored.discard(lp.target.id)
+            if not stored:
+                r.ok(construct=_f(fi) + ':loop@%d' % lp.lineno)
+                continue
+            # must-defined analysis of one iteration: start with everything known before the loop EXCEPT names the body assigns
+            da = DefAssign(fi, set(), set(), may=False)
+            da.locals = set(stored)
+            da.params = set()
+            class _All(set):
+                def __contains__(self, k):
+                    return k not in stored
+            da.module_names = _All()
+            da.enclosing = set()
+            da.problems = []
+            da.block(lp.body, {lp.target.id})
+            carried = []
+            seen = set()
+            for kind, name, node in da.problems:
+                if kind.startswith('unbound-local') and name in stored and name not in seen:
+                    seen.add(name)
+                    carried.append((name, node))
+            # counters / accumulators that are reset before the loop and only incremented are not direction data;
+            # none exist in p-loops today, so every carried name is reported
+            if carried:
+                for name, node in carried:
+                    r.bad(Finding('C11.P3b', _f(fi), name, '%s: inside the loop over directions at line %d, `%s` is read at line %d on a path on which '
+                                  'this iteration has not assigned it, although the loop body assigns it: the value of the previous direction is used'
+                                  % (fi.qualname, lp.lineno, name, node.lineno), fi.file, node.lineno))
+            else:
+                r.ok(construct=_f(fi) + ':loop@%d' % lp.lineno, nontrivial=True,
+                     sample='%s: every one of %s is assigned before use in each iteration of the p-loop at line %d' % (fi.qualname, sorted(stored)[:6], lp.lineno))
+    r.floor = 40
+    return r
+
+
 def rule_p4(ctx):
     r = RuleResult('C11.P4', 'no reduction (sum/any/all/max/allclose/...) runs over the direction axis of a (D,P,...) array, except '
                              'the documented ones (comparisons, realness test of eig, rank decision of svd)')
@@ -375,7 +430,7 @@ def rule_p4(ctx):
             arg = c.args[0] if (d.startswith('numpy.') and c.args) else (c.func.value if isinstance(c.func, ast.Attribute) else None)
             if arg is None:
                 continue
-            dp = _mentions_dp_keeping_p(arg)
+            dp = _mentions_dp_keeping_p(arg, _dp_locals(fi))
             if not dp:
                 continue
             n += 1
@@ -402,7 +457,43 @@ def rule_p4(ctx):
     return r
 
 
-def _mentions_dp_keeping_p(arg):
+def _dp_locals(fi):
+    """local names bound to expressions that still carry the direction axis: name -> p-axis position"""
+    out = {}
+    changed = True
+    while changed:
+        changed = False
+        for st in walk_no_nested(fi.node):
+            if isinstance(st, ast.Assign) and len(st.targets) == 1 and isinstance(st.targets[0], ast.Name):
+                nm = st.targets[0].id
+                if nm in out or _dp_name(st.targets[0]) is not None:
+                    continue
+                r = _mentions_dp_keeping_p(st.value, out)
+                if r is not None:
+                    out[nm] = r[1]
+                    changed = True
+    return out
+
+
+def _mentions_dp_keeping_p(arg, locals_=None):
+    if locals_ and isinstance(arg, ast.Name) and arg.id in locals_:
+        return arg.id, locals_[arg.id]
+    if isinstance(arg, ast.Compare):
+        for x in [arg.left] + list(arg.comparators):
+            r = _mentions_dp_keeping_p(x, locals_)
+            if r is not None:
+                return r
+        return None
+    if isinstance(arg, ast.UnaryOp):
+        return _mentions_dp_keeping_p(arg.operand, locals_)
+    if isinstance(arg, ast.BinOp):
+        return _mentions_dp_keeping_p(arg.left, locals_) or _mentions_dp_keeping_p(arg.right, locals_)
+    if isinstance(arg, ast.Call) and (dotted_name(arg.func) or '').split('.')[-1] in ('abs', 'absolute', 'fabs', 'real', 'imag', 'isnan', 'isfinite', 'less', 'greater') and arg.args:
+        return _mentions_dp_keeping_p(arg.args[0], locals_)
+    return _mentions_dp_keeping_p0(arg)
+
+
+def _mentions_dp_keeping_p0(arg):
     """(array name, position of the p axis in the argument) if the argument is a (D,P,...) array or
     a slice of it that still contains the direction axis; None otherwise"""
     nm = _dp_name(arg)
